@@ -501,8 +501,7 @@ pub fn run(out: &mut Out, tier: &str, rng: &mut Rng) {
     // support) must still satisfy C12 against its own canonical string: == iff equal strings, Equal iff ==
     for s in crate::corpus::REGRESS.iter().chain(["en-a-foo", "en-a-foo-b-bar", "de-1-abc", "en-u-ca-buddhist-a-foo", "en-a-foo-x-p", "en-u-ca-a-ca-b",
                                                  "en-t-h0-a-h0-b", "en--u-foo", "en-u", "en-t-h0"].iter()) {
-        if let Ok(l) = Locale::from_bytes(s.as_bytes()) {
-            let c = l.to_string();
+        if let Some(Ok(c)) = gen_call(|| Locale::from_bytes(s.as_bytes()).map(|l| l.to_string())) {
             out.case("loc_cmp", &[s.as_bytes(), c.as_bytes()], || loc_cmp(s.as_bytes(), c.as_bytes()));
             out.case("loc_cmp", &[c.as_bytes(), s.as_bytes()], || loc_cmp(c.as_bytes(), s.as_bytes()));
         }
@@ -592,7 +591,7 @@ pub fn run(out: &mut Out, tier: &str, rng: &mut Rng) {
     let n = if thorough { 200_000 } else { 20_000 };
     for _ in 0..n {
         let a = rng.pick(&pool).clone();
-        let b = if rng.chance(1, 4) { Locale::from_bytes(&a).map(|x| x.to_string()).unwrap_or_default().into_bytes() } else { rng.pick(&pool).clone() };
+        let b = if rng.chance(1, 4) { gen_call(|| Locale::from_bytes(&a).map(|x| x.to_string()).unwrap_or_default()).unwrap_or_default().into_bytes() } else { rng.pick(&pool).clone() };
         let f = rng.below(4) as u8;
         let (ra, rb) = (f & 1 == 1, f & 2 == 2);
         let fa: &[u8] = if ra { b"1" } else { b"0" }; let fb: &[u8] = if rb { b"1" } else { b"0" };
